@@ -378,5 +378,12 @@ def write_replay(prop: str, seed: int, n: int, payload: dict) -> Path:
 
 
 def write_evidence(prop: str, ev: dict):
+    # evidence/<id>.json always describes a run against /repo itself; a run pointed at a scratch checkout
+    # (ATOMMAN_REPO, used to try the checks on seeded changes) leaves its record under replays/ instead
+    if 'ATOMMAN_REPO' in os.environ and REPO.resolve() != Path('/repo'):
+        REPLAYS.mkdir(exist_ok=True)
+        ev['repo_under_test'] = str(REPO)
+        (REPLAYS / f'evidence-{prop}-scratch.json').write_text(json.dumps(ev, indent=1, default=str))
+        return
     EVIDENCE.mkdir(exist_ok=True)
     (EVIDENCE / f'{prop}.json').write_text(json.dumps(ev, indent=1, default=str))
